@@ -279,7 +279,7 @@ def run_job(job, tier, seed):
         layouts = common.build_layouts(res, cases)
         for tag, L in layouts:
             cnt = {0: 3, 1: 4, 2: 5, 3: 6, 4: 5, 5: 3, 6: 3, 7: 2, 8: 1}[L.dims] * (1 if tier == 'quick' else 3)
-            check_layout(res, L, rng, tag, tier, False, cnt)
+            common.gcall(res, check_layout, L, rng, tag, tier, False, cnt)
         # the fixed defect: well-conditioned small multivector in Cl(6)
         L6 = real.make_layout([1] * 6)
         import numpy as np
@@ -299,7 +299,7 @@ def run_job(job, tier, seed):
         cases = [dict(sig=gen.random_signature(rng, n, k)) for n, k in ((1, 'nondeg'), (2, 'mixed'), (3, 'nondeg'), (4, 'mixed'), (5, 'nondeg'), (6, 'nondeg'))]
         layouts = common.build_layouts(res, cases, prefix='J')
         for tag, L in layouts:
-            check_layout(res, L, rng, tag, tier, True, 4 if tier == 'quick' else 10)
+            common.gcall(res, check_layout, L, rng, tag, tier, True, 4 if tier == 'quick' else 10)
     else:
         raise ValueError(job)
     return res
